@@ -225,7 +225,7 @@ func IsIdent(s string) bool {
 		return false
 	}
 	for i, r := range s {
-		if !isLetter(r) && (i > 0 && !isDigit(r)) {
+		if !isLetter(r) && (i == 0 || !unicode.IsDigit(r)) {
 			return false
 		}
 	}
